@@ -5,8 +5,9 @@
 //!   symbolic; count word symbolic where a count is involved; with_arc_mut callbacks that clone,
 //!   mutate header and slice, replace the Arc, and return normally.
 //! ASSUME: alloc/dealloc logging stubs.
-//! OUTSIDE: what happens *after* the into_thin panic ("still releases that Arc properly") and a
-//!   with_arc_mut callback that panics: Kani ends the path at a panic (no unwinding) - see C07.
+//! OUTSIDE: what happens *after* the into_thin panic ("still releases that Arc properly"): Kani ends
+//!   the path at a panic. A with_arc_mut callback that replaces the Arc and then panics is decided
+//!   by Engine U (wmm/unwind.py, DESIGN 10.5) as the second part of this check.
 use crate::ghost::*;
 use crate::kinds::*;
 use core::mem::{forget, ManuallyDrop};
